@@ -174,7 +174,7 @@ def parse_template(path):
             else:
                 if kw == "end":
                     out.append(("fn", cur)); cur = None; cur_dir = None
-                elif kw in ("props", "nocanary", "mutself", "macro", "block", "exprblock", "closureexpr", "binops", "refarg", "addarg"):
+                elif kw in ("props", "nocanary", "mutself", "macro", "block", "exprblock", "closureexpr", "span", "binops", "refarg", "addarg"):
                     cur.directives.append((kw, rest, [], i + 1))
                 else:
                     cur_dir = (kw, rest, [], i + 1)
@@ -509,6 +509,18 @@ def process_fn(repo, glob, fs, log):
             tlo, thi = first, br[ob] + 1
             expr_wrap = True
             log.append({"fn": fs.fid(), "rule": "E11", "line": line_of(src, s), "note": f"verification target is the expression `{needle} .. }}` of {fs.name}"})
+        if kw == "span":
+            # E11: the verification target is a run of statements: from the start of the first anchor to the end of the second
+            p = parse_quoted(rest)
+            qs_ = [x[1] for x in p if x[0] == "q"]
+            s1, e1 = find_text(src, lo, hi, qs_[0], 0, f"{fs.name} span start")
+            s2, e2 = find_text(src, lo, hi, qs_[1], 0, f"{fs.name} span end")
+            if s2 < s1:
+                raise VxError(f"lost anchor: span of {fs.name}: end anchor precedes start anchor")
+            ks = [k for k in range(tlo, thi) if s1 <= toks[k].start and toks[k].end <= e2]
+            lo, hi = s1, e2
+            tlo, thi = ks[0], ks[-1] + 1
+            log.append({"fn": fs.fid(), "rule": "E11", "line": line_of(src, s1), "note": f"verification target is the statements `{qs_[0]}` .. `{qs_[1]}` of {fs.name}"})
         if kw == "closureexpr":
             # E11: the verification target is the EXPRESSION body of a closure `|x| expr` given by its header: from the first
             # token after the header to the enclosing close bracket or the next top-level comma
@@ -643,7 +655,7 @@ def process_fn(repo, glob, fs, log):
     loop_for = {}
     for (kw, rest, payload, tl) in fs.directives:
         what = f"{fs.name} (template line {tl})"
-        if kw in ("block", "exprblock", "closureexpr", "nocanary", "props", "macro"):
+        if kw in ("block", "exprblock", "closureexpr", "span", "nocanary", "props", "macro"):
             continue
         if kw == "localmacro":
             # E4: a `macro_rules!` defined inside the function, single arm with `$x:ty`/`$x:expr`/`$x:ident` parameters, is
@@ -1006,7 +1018,7 @@ def main():
                 continue
             fs = val
             r = process_fn(repo, glob, fs, log)
-            block_mode = any(d[0] in ("block", "exprblock", "closureexpr") for d in fs.directives)
+            block_mode = any(d[0] in ("block", "exprblock", "closureexpr", "span") for d in fs.directives)
             if not block_mode:
                 a, b = check_sig(fs, r["real_sig"])
                 # an unnamed parameter `_` of the real signature may be given any `_`-prefixed name (Verus needs an identifier)
